@@ -16,6 +16,7 @@ def run(ck, tier):
     ck.rule("R-C02-tile", "PlainEnglish::parse: every pushed token has span (cursor, cursor + next_index) and the only update of cursor on the way back to the loop head is cursor += next_index with that same next_index, so the lexer stage tiles the text exactly")
     ck.rule("R-C02-rebase", "offset provenance: where a parser hands a sub-slice of its source to an inner parser and shifts the resulting spans, the sub-slice is cut directly out of the source parameter and the shift equals the start of that very cut; line-splitting parsers advance their offset by line.len() + 1 exactly once per iteration on every path")
     ck.rule("R-C02-twins", "quote twins are token *indices*: in Document::parse no call that can change the number or order of tokens (transitively: remove_indices / clear / push / insert / remove / retain / truncate / drain / extend on self.tokens) is reachable after match_quotes")
+    ck.rule("R-C02-units", "spans are char offsets: no byte length / byte position of a str or String reaches a span or an index into the char source unconverted, and the Typst translator lexes verbatim source text only (rule instances of R-C04-units)")
     ck.rule("R-C02-stale", "token indices do not survive a resize: in every Document method that removes tokens through an index list, an index collected before an earlier removal of the same method is re-based by exactly the number of tokens that removal takes out in front of it (stretch - 1 per entry of the earlier list); indices used by the first removal are the scan counter itself")
     ck.rule("R-C02-condense", "merging never loses characters: in the queue-based condensing passes of Document every token index pushed onto the removal queue is paired with an assignment that extends a kept token's span (before the push in the same iteration, or on every path from the push to remove_indices)")
     ck.not_decided += ["ordering/disjointness of Markdown / tree-sitter derived tokens (foreign parsers)", "lexical meaning of token text (number values, punctuation identity)", "quote twin validity", "Markdown::parse and Typst offset bookkeeping (byte/char accumulators: see C04)"]
@@ -27,6 +28,9 @@ def run(ck, tier):
     _condense(ck, p, byk)
     _quotes_last(ck, p, byk)
     _stale(ck, p, byk)
+    from . import c04, c05
+    c04._byte_lengths(c05._Sub(ck, "R-C02-units", ""), p)
+    c04._typst_verbatim(c05._Sub(ck, "R-C02-units", ""), p)
 
 
 # ---------------------------------------------------------------------------------------------------
